@@ -147,6 +147,11 @@ func (c01Handler) ServeDNS(ctx context.Context, rw ResponseWriter, req *dns.Msg)
 		return rw.WriteMsg(ctx, req, resp)
 	}
 	q := req.Question[0]
+	if strings.HasPrefix(strings.ToLower(q.Name), "slow") {
+		// A pipeline that takes a while (loopback half-close scenario); the
+		// result is H's as for any other name.
+		time.Sleep(200 * time.Millisecond)
+	}
 	res := c01H(q.Name, q.Qtype, q.Qclass)
 	switch res.Kind {
 	case c01KindError:
